@@ -265,14 +265,19 @@ func (m *model) expect(op *cop) result {
 // (before commit). It returns the violated oracle and a description, or "", "".
 func (m *model) validate(op *cop, got result) (string, string) {
 	want := m.expect(op)
-	if want.Class != got.Class {
+	classMismatch := func() (string, string) {
 		return "class", fmt.Sprintf("%s reported %q, the reference keeper says %q", op.Kind, got.Class, want.Class)
 	}
 	switch op.Kind {
 	case opReserve, opParticular:
 		if got.Class != clsOK {
+			if want.Class != got.Class {
+				return classMismatch()
+			}
 			return "", ""
 		}
+		// a success is first checked for what it holds (that names the broken
+		// clause of the statement), then for whether it should have succeeded
 		outs := splitList(got.Outs)
 		seen := map[string]bool{}
 		sum := uint64(0)
@@ -312,12 +317,21 @@ func (m *model) validate(op *cop, got result) (string, string) {
 				return "change", fmt.Sprintf("reservation %d holds %d for a request of %d but reports change %d (excess is %d)", got.RID, sum, op.Amount, got.Change, sum-op.Amount)
 			}
 		}
+		if want.Class != got.Class {
+			return classMismatch()
+		}
 		if _, dup := m.res[got.RID]; dup {
 			return "rid", fmt.Sprintf("new reservation got id %d which a live reservation already has", got.RID)
 		}
 		if got.Expiry != op.Exp.UnixNano() {
 			return "expiry-recorded", fmt.Sprintf("reservation %d records expiry %s, requested %s", got.RID, fmtT(time.Unix(0, got.Expiry)), fmtT(op.Exp))
 		}
+	default:
+		if want.Class != got.Class {
+			return classMismatch()
+		}
+	}
+	switch op.Kind {
 	case opAdvance, opSweep:
 		now := m.now
 		if op.Kind == opAdvance {
